@@ -103,6 +103,11 @@ Check (C15_persist_unrepaired_refuted :
     try_from_accounts (list Z) (c_de c_bv) PID_A 8 DISC_BV (begin_instr true (r_acct r)) = Err EC_IO_ERROR /\
     client_deserialize (list Z) (c_de c_bv) 8 DISC_BV (b_data (r_acct r)) = Err EC_IO_ERROR /\
     zlen (b_data (r_acct r)) <> 8 + zlen (c_ser c_bv v)).
+Check (C15_manual_serialize_keeps_the_value :
+  forall (T : Type) (ser : T -> list Z) (de : list Z -> option (T * list Z)) (fixed : bool) (pid : key) (w : nat)
+         (a : bacct) (ov : option T) r a' ov',
+    step T ser de fixed pid w OSerialize a ov = (r, a', ov') ->
+    ov' = ov /\ (forall t, ov = Some t -> step T ser de fixed pid w ORead a' ov' = (SVal t, a', ov'))).
 
 Print Assumptions C15_persist.
 Print Assumptions C15_persist_seq.
@@ -116,3 +121,4 @@ Print Assumptions C15_growth_refused.
 Print Assumptions C15_instances.
 Print Assumptions C15_noncanonical_image.
 Print Assumptions C15_persist_unrepaired_refuted.
+Print Assumptions C15_manual_serialize_keeps_the_value.
